@@ -38,6 +38,7 @@ type MemoOp struct {
 	Ts  []int       `json:"ts,omitempty"`
 	L   *LookupCall `json:"l,omitempty"`
 	Opt *OptSpec    `json:"opt,omitempty"`
+	F   *FaultSpec  `json:"f,omitempty"` // faulty-driver configuration: the wrapped driver fails the next call this op makes
 }
 
 type MemoCase struct {
@@ -51,6 +52,7 @@ type MemoCase struct {
 	Preempt int        `json:"preempt"`
 	PMean   int        `json:"pmean"`
 	Tape    []uint32   `json:"tape,omitempty"`
+	Faulty  bool       `json:"faulty,omitempty"` // sequential configuration over a wrapped driver with transient failures (simstore between memoizer and memory)
 	fine    bool       // generation only: sub-second windows over triples anchored within one second
 }
 
@@ -186,13 +188,29 @@ func (h *memoHarness) Gen(r *Rand, tier string, clean bool) any {
 	}
 	if r.Chance(0.55) {
 		n := r.Range(3, 14)
+		c.Faulty = r.Chance(0.3)
 		for i := 0; i < n; i++ {
 			hd := r.Intn(c.NH)
+			var op MemoOp
 			if r.Chance(0.3) {
-				c.Ops = append(c.Ops, write(hd))
+				op = write(hd)
+				if c.Faulty && r.Chance(0.15) {
+					op.F = &FaultSpec{Mode: "fail"}
+				}
 			} else {
-				c.Ops = append(c.Ops, read(hd, true))
+				op = read(hd, true)
+				if c.Faulty && r.Chance(0.35) {
+					switch {
+					case op.K == "exist":
+						op.F = &FaultSpec{Mode: "fail"}
+					case r.Chance(0.3):
+						op.F = &FaultSpec{Mode: "before"}
+					default:
+						op.F = &FaultSpec{Mode: "after", J: r.Range(1, 3)}
+					}
+				}
 			}
+			c.Ops = append(c.Ops, op)
 		}
 		return c
 	}
@@ -232,6 +250,16 @@ func (h *memoHarness) Shrink(ci any) []any {
 			d := *c
 			d.Pre = nil
 			out = append(out, &d)
+		}
+		for i, op := range c.Ops {
+			if op.F != nil {
+				d := *c
+				d.Ops = append([]MemoOp{}, c.Ops...)
+				nop := op
+				nop.F = nil
+				d.Ops[i] = nop
+				out = append(out, &d)
+			}
 		}
 		for i, op := range c.Ops {
 			if op.Opt != nil {
@@ -295,6 +323,9 @@ func (op MemoOp) desc(c *MemoCase) string {
 	if op.Opt != nil {
 		s += " " + jsonStr(op.Opt)
 	}
+	if op.F != nil {
+		s += " [driver fails: " + op.F.Mode + fmt.Sprintf(" j=%d]", op.F.J)
+	}
 	return s
 }
 
@@ -306,9 +337,14 @@ func (h *memoHarness) Run(t *testing.T, ci any) *Outcome {
 	return h.runSequential(t, c)
 }
 
-func memoSetup(ctx context.Context, c *MemoCase, uni []*triple.Triple) (inner storage.Graph, handles []storage.Graph) {
+func memoSetup(ctx context.Context, c *MemoCase, uni []*triple.Triple) (inner storage.Graph, handles []storage.Graph, ss *simStore) {
 	in := memory.NewStore()
-	st := memoization.New(in)
+	var wrapped storage.Store = in
+	if c.Faulty {
+		ss = newSimStore(in, simStoreCfg{})
+		wrapped = ss
+	}
+	st := memoization.New(wrapped)
 	g0, err := st.NewGraph(ctx, "?g")
 	if err != nil {
 		panic(err)
@@ -341,8 +377,9 @@ func (h *memoHarness) runSequential(t *testing.T, c *MemoCase) *Outcome {
 		uni[i] = s.Triple()
 	}
 	sim.SetMapSeed(c.Sched | 1)
-	inner, handles := memoSetup(ctx, c, uni)
+	inner, handles, ss := memoSetup(ctx, c, uni)
 	wrote, readAfter := false, false
+	afterFault := false
 	lastWriter := -1
 	var sig []string
 	for i, op := range c.Ops {
@@ -351,6 +388,27 @@ func (h *memoHarness) runSequential(t *testing.T, c *MemoCase) *Outcome {
 		}
 		hd := handles[op.H]
 		sig = append(sig, fmt.Sprintf("%s%d", op.K, op.H))
+		// faulty-driver configuration: the next call this op makes on the wrapped driver fails
+		armed, fired := false, false
+		if ss != nil && op.F != nil {
+			ss.arm(*op.F)
+			armed = true
+			sig[len(sig)-1] += "!" + op.F.Mode
+		}
+		settle := func() {
+			if armed {
+				fired = ss.disarm()
+				if fired {
+					o.stat("fault_wrapped_driver_"+op.F.Mode, 1)
+				} else {
+					o.stat("fault_armed_not_reached_cache_hit", 1)
+				}
+			}
+		}
+		suffix := ""
+		if afterFault {
+			suffix = ":after-a-failed-driver-call"
+		}
 		switch op.K {
 		case "add", "rm":
 			var batch []*triple.Triple
@@ -363,15 +421,32 @@ func (h *memoHarness) runSequential(t *testing.T, c *MemoCase) *Outcome {
 			} else {
 				err = hd.RemoveTriples(ctx, batch)
 			}
+			settle()
+			if fired {
+				// the driver refused the write before applying anything: the wrapper must report it, the state is unchanged
+				if err == nil {
+					return violation("C19:fault-swallowed:write", "op %d %s: the wrapped driver failed the write but the wrapper reported success\nhistory: %s", i, op.desc(c), h.renderSeq(c, i))
+				}
+				afterFault = true
+				continue
+			}
 			if err != nil {
 				return violation("C19:write-error", "op %d %s: %v", i, op.desc(c), err)
 			}
 			wrote, lastWriter = true, op.H
 		case "exist":
 			got, err1 := hd.Exist(ctx, uni[op.Ts[0]])
+			settle()
 			want, err2 := inner.Exist(ctx, uni[op.Ts[0]])
+			if fired {
+				if err1 == nil {
+					return violation("C19:fault-swallowed:exist", "op %d %s: the wrapped driver failed but the wrapper answered (%v, nil)\nhistory: %s", i, op.desc(c), got, h.renderSeq(c, i))
+				}
+				afterFault = true
+				continue
+			}
 			if (err1 != nil) != (err2 != nil) || got != want {
-				return violation("C19:"+h.seqClass(c, "exist", op, lastWriter), "op %d %s through the wrapper = (%v,%v), wrapped store = (%v,%v)\nhistory: %s", i, op.desc(c), got, err1, want, err2, h.renderSeq(c, i))
+				return violation("C19:"+h.seqClass(c, "exist", op, lastWriter, suffix), "op %d %s through the wrapper = (%v,%v), wrapped store = (%v,%v)\nhistory: %s", i, op.desc(c), got, err1, want, err2, h.renderSeq(c, i))
 			}
 			readAfter = readAfter || wrote
 		case "lookup":
@@ -382,6 +457,7 @@ func (h *memoHarness) runSequential(t *testing.T, c *MemoCase) *Outcome {
 			lo1, lo2 := os.Build(), os.Build()
 			snap := optsSnapshot(lo1)
 			got := doLookup(ctx, hd, *op.L, lo1, c.Cap)
+			settle()
 			want := doLookup(ctx, inner, *op.L, lo2, c.Cap)
 			o.stat("reads", 1)
 			if optsSnapshot(lo1) != snap {
@@ -390,13 +466,28 @@ func (h *memoHarness) runSequential(t *testing.T, c *MemoCase) *Outcome {
 			if !got.Closed {
 				return violation("C19:channel-not-closed", "op %d %s: wrapper did not close the channel", i, op.desc(c))
 			}
+			if fired {
+				// the wrapped driver returned an error (before or after part of the elements): so must the wrapper,
+				// and what it delivered must be a prefix of what the driver delivered (= of the full answer)
+				if got.Err == nil {
+					return violation("C19:fault-swallowed:lookup", "op %d %s: the wrapped driver failed but the wrapper returned %q with a nil error\nhistory: %s", i, op.desc(c), got.Keys, h.renderSeq(c, i))
+				}
+				if len(got.Keys) > len(want.Keys) || !equalStrings(got.Keys, want.Keys[:len(got.Keys)]) {
+					return violation("C19:wrong-data-with-error", "op %d %s: delivered %q before the error, the wrapped store holds %q\nhistory: %s", i, op.desc(c), got.Keys, want.Keys, h.renderSeq(c, i))
+				}
+				afterFault = true
+				continue
+			}
 			if (got.Err != nil) != (want.Err != nil) || !equalStrings(got.Keys, want.Keys) {
-				return violation("C19:"+h.seqClass(c, "lookup", op, lastWriter), "op %d %s through the wrapper = %q err=%v, wrapped store = %q err=%v\nhistory: %s", i, op.desc(c), got.Keys, got.Err, want.Keys, want.Err, h.renderSeq(c, i))
+				return violation("C19:"+h.seqClass(c, "lookup", op, lastWriter, suffix), "op %d %s through the wrapper = %q err=%v, wrapped store = %q err=%v\nhistory: %s", i, op.desc(c), got.Keys, got.Err, want.Keys, want.Err, h.renderSeq(c, i))
 			}
 			readAfter = readAfter || wrote
+			if afterFault {
+				o.stat("probe_read_after_failed_driver_call", 1)
+			}
 		}
 	}
-	o.NonTrivial = wrote && readAfter
+	o.NonTrivial = (wrote && readAfter) || afterFault
 	o.Hash = hashStr("seq" + strings.Join(sig, ",") + fmt.Sprint(c.U, c.Pre))
 	o.Sample = map[string]any{"ops": h.renderSeq(c, len(c.Ops)-1), "case": c}
 	return o
@@ -412,10 +503,13 @@ func (h *memoHarness) renderSeq(c *MemoCase, upto int) []string {
 
 // seqClass narrows a sequential mismatch: does the failing read go through a
 // handle other than the one the last write went through, and does it page?
-func (h *memoHarness) seqClass(c *MemoCase, kind string, op MemoOp, lastWriter int) string {
+func (h *memoHarness) seqClass(c *MemoCase, kind string, op MemoOp, lastWriter int, suffix string) string {
 	cls := "differs-" + kind
 	if lastWriter >= 0 && lastWriter != op.H {
+		// explained by the per-handle caches whether or not a driver call failed earlier
 		cls += ":read-through-other-handle-than-last-write"
+	} else {
+		cls += suffix
 	}
 	if op.Opt != nil && op.Opt.Off > 0 {
 		cls += ":paged-with-offset"
@@ -453,7 +547,7 @@ func (h *memoHarness) runConcurrent(t *testing.T, c *MemoCase) *Outcome {
 	sim.SetMapSeed(c.Sched | 1)
 	cfg := sim.Config{Preempt: c.Preempt, PreemptMean: c.PMean, MaxSteps: 80000, Trace: traceOn}
 	res, bmsg := simRun(t, tape, cfg, func(r *sim.Runtime) {
-		_, handles := memoSetup(ctx, c, uni)
+		_, handles, _ := memoSetup(ctx, c, uni)
 		for ci, ops := range c.Clients {
 			ci, ops := ci, ops
 			r.Client(fmt.Sprintf("c%d", ci), func() {
